@@ -235,7 +235,9 @@ func (state *peeringRequestState) handlePeeringRequest(in frame.Frame) (frame.Fr
 		return nil, errors.New("universe mismatch")
 	}
 	// Add universe auth, if set.
-	if r.Universe != "" && state.peering.instance.Config().Router.UniverseSecret != "" {
+	// The response is checked for it whenever a secret is configured, also
+	// when the universe has no name.
+	if state.peering.instance.Config().Router.UniverseSecret != "" {
 		resp.UniverseAuth = makeUniverseAuth(
 			r.Universe,
 			state.peering.instance.Config().Router.UniverseSecret,
